@@ -156,6 +156,15 @@ func c10Build(feats []string) map[string]any {
 			comps["schemas"].(map[string]any)["Dog"] = map[string]any{"type": "object", "properties": map[string]any{"kind": map[string]any{"type": "string"}, "w": map[string]any{"type": "string"}}}
 			props["pet"] = map[string]any{"oneOf": []any{map[string]any{"$ref": "#/components/schemas/Cat"}, map[string]any{"$ref": "#/components/schemas/Dog"}},
 				"discriminator": map[string]any{"propertyName": "kind", "mapping": map[string]any{"cat": "#/components/schemas/Cat", "dog": "#/components/schemas/Dog"}}}
+		case "param_content_no_schema":
+			// a media type object needs no schema
+			params = append(params, map[string]any{"name": "g", "in": "query", "content": map[string]any{"application/json": map[string]any{}}})
+		case "form_allof_object_default":
+			// a urlencoded body whose object-typed property (declared in an allOf member, non-exploded form encoding) has a defaulted sub-property
+			body["content"].(map[string]any)["application/x-www-form-urlencoded"] = map[string]any{
+				"schema": map[string]any{"type": "object", "allOf": []any{map[string]any{"type": "object", "properties": map[string]any{
+					"id": intS(), "o": map[string]any{"type": "object", "properties": map[string]any{"z": map[string]any{"type": "integer", "default": 3}}}}}}},
+				"encoding": map[string]any{"o": map[string]any{"style": "form", "explode": false}}}
 		case "no_request_body":
 			body = nil
 		case "allof_param":
@@ -245,6 +254,13 @@ func c10Request(feats, muts []string) *c10Req {
 	}
 	if has(feats, "deepobject_param") {
 		r.query = append(r.query, "d[a]=1", "d[o][b]=x")
+	}
+	if has(feats, "param_content_no_schema") {
+		r.query = append(r.query, `g=%7B%22a%22%3A1%7D`)
+	}
+	if has(feats, "form_allof_object_default") {
+		r.header.Set("Content-Type", "application/x-www-form-urlencoded")
+		r.body = []byte("id=1")
 	}
 	if has(feats, "no_request_body") {
 		r.body = nil
